@@ -151,4 +151,15 @@ def solve_all(obls, tier='quick', procs=None):
     ctx = mp.get_context('fork')
     with ctx.Pool(procs) as pool:
         results = pool.map(solve_one, jobs, chunksize=1)
+    # obligations left undecided are tried once more, a few at a time, with budgets for a machine that turned out busier than the load
+    # average said when the run started (the average lags behind a burst of processes): `undecided` is for queries the solvers cannot
+    # decide, not for queries that were cut off
+    again = [i for i, r in enumerate(results) if r.get('verdict') == 'unknown']
+    if again and len(again) <= 24:
+        lf2 = max(4.0 * lf, 2.0 * load_factor())
+        jobs2 = [(i, obls[i].name, obls[i].smt2, tier, lf2) for i in again]
+        with ctx.Pool(min(4, len(jobs2))) as pool:
+            for i, r2 in zip(again, pool.map(solve_one, jobs2, chunksize=1)):
+                r2['retried_with_load_factor'] = round(lf2, 2)
+                results[i] = r2
     return results
